@@ -936,6 +936,9 @@ func sameIface(a, b ssa.Value) bool {
 	if oa, ob := origin(a), origin(b); (oa != a || ob != b) && oa == ob {
 		return true // the same value seen through a helper's parameter
 	}
+	if curPath != nil && resolvedEq(a, b) {
+		return true // … or through the result a walked-through helper returned on this path
+	}
 	if ci, ok := a.(*ssa.ChangeInterface); ok {
 		return sameIface(ci.X, b)
 	}
@@ -1793,9 +1796,66 @@ func resolveOn(v ssa.Value, idx int, path []ssa.Instruction) ssa.Value {
 	for i := 0; i < 6; i++ {
 		n := valueOnPath(rvI(v, idx), path)
 		if n == v {
+			// a field read back right after it was assigned on this path (`s.err = helper(); if s.err != nil`)
+			if m, at := fieldLoadOnPath(v, idx, path); m != nil {
+				v, idx = m, at
+				continue
+			}
 			return v
 		}
 		v = n
 	}
 	return v
+}
+
+// fieldLoadOnPath: for a load of a struct field, the value stored to the same field of the same object by the nearest
+// earlier store on the path, provided that no call that is not walked through lies in between (it could assign the
+// field). Returns the stored value and the index of the store.
+func fieldLoadOnPath(v ssa.Value, idx int, path []ssa.Instruction) (ssa.Value, int) {
+	u, ok := v.(*ssa.UnOp)
+	if !ok || u.Op != token.MUL {
+		return nil, 0
+	}
+	fa, ok := u.X.(*ssa.FieldAddr)
+	if !ok {
+		return nil, 0
+	}
+	if idx >= len(path) {
+		idx = len(path) - 1
+	}
+	// the load itself must lie on the path at or before idx
+	at := -1
+	for i := idx; i >= 0; i-- {
+		if path[i] == ssa.Instruction(u) {
+			at = i
+			break
+		}
+	}
+	if at < 0 {
+		return nil, 0
+	}
+	for i := at - 1; i >= 0; i-- {
+		switch x := path[i].(type) {
+		case *ssa.Store:
+			if fa2, ok := x.Addr.(*ssa.FieldAddr); ok && fa2.Field == fa.Field && fieldOfAddr(fa2) == fieldOfAddr(fa) {
+				if sameAddr(fa2, fa) || sameValue(rvI(fa2.X, i), rvI(fa.X, at)) {
+					return x.Val, i
+				}
+				return nil, 0 // a store to that field of an object that may or may not be the same one
+			}
+		case *ssa.Call:
+			if i+1 < len(path) && path[i+1].Parent() != x.Parent() && path[i+1].Parent() != nil && i+1 <= at {
+				continue // walked through: its instructions are on the path
+			}
+			callee := x.Call.StaticCallee()
+			if callee != nil && (theWorld == nil || !theWorld.inModule(callee)) {
+				continue // the standard library does not assign the module's fields
+			}
+			if x.Call.IsInvoke() || callee == nil || callee.Blocks != nil {
+				return nil, 0
+			}
+		case *ssa.Go, *ssa.Defer:
+		}
+	}
+	return nil, 0
 }
